@@ -173,9 +173,255 @@ fn codec_rt_signature() {
 
 // ---------------------------------------------------------------------------------------------
 // variable-size types: bounded in the container lengths
+//
+// The direct form `deserialize(&x.serialize()?)` is intractable here: the encoder's heap buffer (Vec growth
+// = realloc) defeats CBMC's constant propagation, so the decoder sees "symbolic" length prefixes and map
+// keys (symbolic Vec capacities, symbolic BTreeMap keys: time-outs at 30 min / out of memory).  The round trip
+// is therefore proved as two lemmas over an explicit wire-format function enc(x) (a stack array built by the
+// harness, structure bytes concrete, field bytes symbolic):
+//     (A)  x.serialize() == Ok(enc(x))            -- byte-exact wire format
+//     (B)  T::deserialize(enc(x)) == Ok(x)
+// which together give deserialize(serialize(x)) == Ok(x).  u16 thresholds are restricted to < 128 (one varint
+// byte) in these harnesses; the full u16 varint range is covered by the complete KeyPackage harness and by
+// the direct-form harnesses of the thorough tier.
 // ---------------------------------------------------------------------------------------------
 
-// @harness name=codec_rt_secret_share props=C12 kind=bounded bound="commitment length in {0,1,2}" tier=quick backs="SecretShare postcard round trip, all ids / shares / non-identity coefficient commitments" expect=pass
+const H: [u8; 5] = [0, TOY251_SHORT_ID[0], TOY251_SHORT_ID[1], TOY251_SHORT_ID[2], TOY251_SHORT_ID[3]];
+
+fn bytes_eq<const K: usize>(v: &[u8], exp: &[u8; K]) -> bool {
+    if v.len() != K {
+        return false;
+    }
+    let mut ok = true;
+    let mut i = 0;
+    while i < K {
+        if v[i] != exp[i] {
+            ok = false;
+        }
+        i += 1;
+    }
+    ok
+}
+
+macro_rules! enc_dec {
+    ($x:expr, $ty:ty, $exp:expr) => {{
+        let x = $x;
+        let exp = $exp;
+        // (A)
+        match x.serialize() {
+            Err(_) => {
+                assert!(false, "serialize failed on an encodable value");
+            }
+            Ok(bytes) => {
+                assert!(bytes_eq(&bytes, &exp), "serialize(x) != enc(x)");
+            }
+        }
+        // (B)
+        match <$ty>::deserialize(&exp) {
+            Err(_) => {
+                assert!(false, "deserialize(enc(x)) failed");
+            }
+            Ok(y) => {
+                assert!(y == x, "deserialize(enc(x)) != x");
+            }
+        }
+    }};
+}
+
+fn any_small_u16() -> u16 {
+    let v: u16 = kani::any();
+    kani::assume(v < 128);
+    v
+}
+fn cc(e: E) -> frost_core::keys::CoefficientCommitment<Toy251> {
+    frost_core::keys::CoefficientCommitment::<Toy251>::new(e)
+}
+fn vss(v: Vec<E>) -> frost_core::keys::VerifiableSecretSharingCommitment<Toy251> {
+    frost_core::keys::VerifiableSecretSharingCommitment::<Toy251>::new(v.into_iter().map(cc).collect())
+}
+
+// @harness name=codec_ab_secret_share_len2 props=C12 kind=bounded bound="commitment length 2" tier=quick backs="SecretShare: serialize(x) == enc(x) = hdr|id|share|len|c0|c1 and deserialize(enc(x)) == Ok(x), all ids / shares / non-identity commitments" expect=pass
+#[kani::proof]
+#[kani::unwind(12)]
+#[kani::stub(zeroize::barrier::optimization_barrier, noop_barrier)]
+fn codec_ab_secret_share_len2() {
+    let (i, s, c0, c1) = (any_s_nz(), any_s(), any_e_nz(), any_e_nz());
+    let x = SecretShare::<Toy251>::new(id_of(i), share(s), vss(vec![c0, c1]));
+    enc_dec!(x, SecretShare<Toy251>, [H[0], H[1], H[2], H[3], H[4], i.0, s.0, 2, c0.0, c1.0]);
+}
+
+// @harness name=codec_ab_secret_share_len01 props=C12 kind=bounded bound="commitment lengths 0 and 1" tier=quick backs="SecretShare wire format + decode, as codec_ab_secret_share_len2" expect=pass
+#[kani::proof]
+#[kani::unwind(12)]
+#[kani::stub(zeroize::barrier::optimization_barrier, noop_barrier)]
+fn codec_ab_secret_share_len01() {
+    let (i, s, c0) = (any_s_nz(), any_s(), any_e_nz());
+    let x = SecretShare::<Toy251>::new(id_of(i), share(s), vss(vec![]));
+    enc_dec!(x, SecretShare<Toy251>, [H[0], H[1], H[2], H[3], H[4], i.0, s.0, 0]);
+    let x = SecretShare::<Toy251>::new(id_of(i), share(s), vss(vec![c0]));
+    enc_dec!(x, SecretShare<Toy251>, [H[0], H[1], H[2], H[3], H[4], i.0, s.0, 1, c0.0]);
+}
+
+fn pkp2(a: E, b: E, k: E, min_signers: Option<u16>) -> PublicKeyPackage<Toy251> {
+    let mut m = BTreeMap::new();
+    m.insert(id(1), vshare(a));
+    m.insert(id(2), vshare(b));
+    PublicKeyPackage::<Toy251>::new(m, vkey(k), min_signers)
+}
+fn pkp1(a: E, k: E, min_signers: Option<u16>) -> PublicKeyPackage<Toy251> {
+    let mut m = BTreeMap::new();
+    m.insert(id(1), vshare(a));
+    PublicKeyPackage::<Toy251>::new(m, vkey(k), min_signers)
+}
+
+// @harness name=codec_ab_public_key_package_some props=C12,C13 kind=bounded bound="2 entries with the concrete keys 1, 2; min_signers = Some(t), t < 128" tier=quick backs="PublicKeyPackage (custom Deserialize, serialization.rs:259-490): serialize(x) == hdr|n|(id,vs)*|vk|1|t and deserialize(enc(x)) == Ok(x)" expect=pass
+#[kani::proof]
+#[kani::unwind(16)]
+fn codec_ab_public_key_package_some() {
+    let (a, b, k, t) = (any_e_nz(), any_e_nz(), any_e_nz(), any_small_u16());
+    let x = pkp2(a, b, k, Some(t));
+    enc_dec!(
+        x,
+        PublicKeyPackage<Toy251>,
+        [H[0], H[1], H[2], H[3], H[4], 2, 1, a.0, 2, b.0, k.0, 1, t as u8]
+    );
+}
+
+// @harness name=codec_ab_public_key_package_none props=C12,C13 kind=bounded bound="2 entries with the concrete keys 1, 2; min_signers = None" tier=quick backs="PublicKeyPackage legacy (pre-3.0) format: None is encoded by OMITTING the field (hdr|n|(id,vs)*|vk) and such an encoding decodes with min_signers == None" expect=pass
+#[kani::proof]
+#[kani::unwind(16)]
+fn codec_ab_public_key_package_none() {
+    let (a, b, k) = (any_e_nz(), any_e_nz(), any_e_nz());
+    let x = pkp2(a, b, k, None);
+    enc_dec!(x, PublicKeyPackage<Toy251>, [H[0], H[1], H[2], H[3], H[4], 2, 1, a.0, 2, b.0, k.0]);
+}
+
+// @harness name=codec_ab_public_key_package_small props=C12,C13 kind=bounded bound="0 and 1 entries (key 1); min_signers = Some(t < 128) and None" tier=quick backs="PublicKeyPackage wire format + decode, small maps" expect=pass
+#[kani::proof]
+#[kani::unwind(16)]
+fn codec_ab_public_key_package_small() {
+    let (a, k, t) = (any_e_nz(), any_e_nz(), any_small_u16());
+    enc_dec!(pkp1(a, k, Some(t)), PublicKeyPackage<Toy251>, [H[0], H[1], H[2], H[3], H[4], 1, 1, a.0, k.0, 1, t as u8]);
+    enc_dec!(pkp1(a, k, None), PublicKeyPackage<Toy251>, [H[0], H[1], H[2], H[3], H[4], 1, 1, a.0, k.0]);
+    let x0 = PublicKeyPackage::<Toy251>::new(BTreeMap::new(), vkey(k), Some(t));
+    enc_dec!(x0, PublicKeyPackage<Toy251>, [H[0], H[1], H[2], H[3], H[4], 0, k.0, 1, t as u8]);
+}
+
+fn sc(h: E, b: E) -> SigningCommitments<Toy251> {
+    SigningCommitments::<Toy251>::new(NonceCommitment::<Toy251>::new(h), NonceCommitment::<Toy251>::new(b))
+}
+
+// @harness name=codec_ab_signing_package props=C12 kind=bounded bound="2 entries (concrete keys 1, 2), message length 2" tier=quick backs="SigningPackage: serialize(x) == hdr|n|(id|hdr|D|E)*|mlen|msg and deserialize(enc(x)) == Ok(x), all commitment values and message bytes" expect=pass
+#[kani::proof]
+#[kani::unwind(28)]
+fn codec_ab_signing_package() {
+    let (d1, e1, d2, e2) = (any_e_nz(), any_e_nz(), any_e_nz(), any_e_nz());
+    let msg: [u8; 2] = kani::any();
+    let mut m = BTreeMap::new();
+    m.insert(id(1), sc(d1, e1));
+    m.insert(id(2), sc(d2, e2));
+    let x = SigningPackage::<Toy251>::new(m, &msg);
+    enc_dec!(
+        x,
+        SigningPackage<Toy251>,
+        [
+            H[0], H[1], H[2], H[3], H[4], 2, //
+            1, H[0], H[1], H[2], H[3], H[4], d1.0, e1.0, //
+            2, H[0], H[1], H[2], H[3], H[4], d2.0, e2.0, //
+            2, msg[0], msg[1]
+        ]
+    );
+}
+
+// @harness name=codec_ab_signing_package_small props=C12 kind=bounded bound="(entries, message length) in {(0,0), (1,1)}" tier=quick backs="SigningPackage wire format + decode, small shapes" expect=pass
+#[kani::proof]
+#[kani::unwind(28)]
+fn codec_ab_signing_package_small() {
+    let (d1, e1) = (any_e_nz(), any_e_nz());
+    let msg: [u8; 1] = kani::any();
+    let x = SigningPackage::<Toy251>::new(BTreeMap::new(), &[]);
+    enc_dec!(x, SigningPackage<Toy251>, [H[0], H[1], H[2], H[3], H[4], 0, 0]);
+    let mut m = BTreeMap::new();
+    m.insert(id(1), sc(d1, e1));
+    let x = SigningPackage::<Toy251>::new(m, &msg);
+    enc_dec!(
+        x,
+        SigningPackage<Toy251>,
+        [H[0], H[1], H[2], H[3], H[4], 1, 1, H[0], H[1], H[2], H[3], H[4], d1.0, e1.0, 1, msg[0]]
+    );
+}
+
+// @harness name=codec_ab_dkg_round1_package props=C12 kind=bounded bound="commitment length 2" tier=quick backs="keys::dkg::round1::Package: serialize(x) == hdr|len|c*|2|R|z (proof of knowledge as length-prefixed Signature bytes) and deserialize(enc(x)) == Ok(x)" expect=pass
+#[kani::proof]
+#[kani::unwind(14)]
+#[kani::stub(std::fmt::format, stub_format)]
+fn codec_ab_dkg_round1_package() {
+    let (c0, c1, r, z) = (any_e_nz(), any_e_nz(), any_e_nz(), any_s());
+    let x = dkg::round1::Package::<Toy251>::new(vss(vec![c0, c1]), Signature::<Toy251>::new(r, z));
+    enc_dec!(
+        x,
+        dkg::round1::Package<Toy251>,
+        [H[0], H[1], H[2], H[3], H[4], 2, c0.0, c1.0, 2, r.0, z.0]
+    );
+}
+
+// @harness name=codec_ab_dkg_round1_package_len1 props=C12 kind=bounded bound="commitment length 1" tier=quick backs="keys::dkg::round1::Package wire format + decode" expect=pass
+#[kani::proof]
+#[kani::unwind(14)]
+#[kani::stub(std::fmt::format, stub_format)]
+fn codec_ab_dkg_round1_package_len1() {
+    let (c0, r, z) = (any_e_nz(), any_e_nz(), any_s());
+    let x = dkg::round1::Package::<Toy251>::new(vss(vec![c0]), Signature::<Toy251>::new(r, z));
+    enc_dec!(x, dkg::round1::Package<Toy251>, [H[0], H[1], H[2], H[3], H[4], 1, c0.0, 2, r.0, z.0]);
+}
+
+// @harness name=codec_ab_dkg_round1_secret_package props=C12,C13 kind=bounded bound="coefficients length 2, commitment length 2; min_signers, max_signers < 128" tier=quick backs="keys::dkg::round1::SecretPackage (state kept between DKG rounds; NO header on the wire): serialize(x) == id|n|coef*|m|comm*|min|max and deserialize(enc(x)) == Ok(x)" expect=pass
+#[kani::proof]
+#[kani::unwind(12)]
+#[kani::stub(zeroize::barrier::optimization_barrier, noop_barrier)]
+fn codec_ab_dkg_round1_secret_package() {
+    let (i, a0, a1, c0, c1) = (any_s_nz(), any_s(), any_s(), any_e_nz(), any_e_nz());
+    let (mn, mx) = (any_small_u16(), any_small_u16());
+    let x = dkg::round1::SecretPackage::<Toy251>::new(id_of(i), vec![a0, a1], vss(vec![c0, c1]), mn, mx);
+    enc_dec!(
+        x,
+        dkg::round1::SecretPackage<Toy251>,
+        [i.0, 2, a0.0, a1.0, 2, c0.0, c1.0, mn as u8, mx as u8]
+    );
+}
+
+// The refresh variant stores a commitment WITHOUT the constant-term entry (identity stripped):
+// |commitment| == |coefficients| - 1.
+// @harness name=codec_ab_dkg_round1_secret_package_refresh props=C13 kind=bounded bound="(coefficients, commitment) lengths (2,1) and (3,2); min_signers, max_signers < 128" tier=quick backs="refresh_dkg_part1 state: dkg::round1::SecretPackage whose commitment lacks the identity entry: wire format + decode" expect=pass
+#[kani::proof]
+#[kani::unwind(12)]
+#[kani::stub(zeroize::barrier::optimization_barrier, noop_barrier)]
+fn codec_ab_dkg_round1_secret_package_refresh() {
+    let (i, a1, a2, c1, c2) = (any_s_nz(), any_s(), any_s(), any_e_nz(), any_e_nz());
+    let (mn, mx) = (any_small_u16(), any_small_u16());
+    let x = dkg::round1::SecretPackage::<Toy251>::new(id_of(i), vec![S(0), a1], vss(vec![c1]), mn, mx);
+    enc_dec!(x, dkg::round1::SecretPackage<Toy251>, [i.0, 2, 0, a1.0, 1, c1.0, mn as u8, mx as u8]);
+    let x = dkg::round1::SecretPackage::<Toy251>::new(id_of(i), vec![S(0), a1, a2], vss(vec![c1, c2]), mn, mx);
+    enc_dec!(
+        x,
+        dkg::round1::SecretPackage<Toy251>,
+        [i.0, 3, 0, a1.0, a2.0, 2, c1.0, c2.0, mn as u8, mx as u8]
+    );
+}
+
+// @harness name=codec_ab_dkg_round2_secret_package props=C12,C13 kind=bounded bound="commitment length 2; min_signers, max_signers < 128" tier=quick backs="keys::dkg::round2::SecretPackage (state kept between DKG rounds; no header): serialize(x) == id|m|comm*|share|min|max and deserialize(enc(x)) == Ok(x)" expect=pass
+#[kani::proof]
+#[kani::unwind(12)]
+#[kani::stub(zeroize::barrier::optimization_barrier, noop_barrier)]
+fn codec_ab_dkg_round2_secret_package() {
+    let (i, c0, c1, s) = (any_s_nz(), any_e_nz(), any_e_nz(), any_s());
+    let (mn, mx) = (any_small_u16(), any_small_u16());
+    let x = dkg::round2::SecretPackage::<Toy251>::new(id_of(i), vss(vec![c0, c1]), s, mn, mx);
+    enc_dec!(x, dkg::round2::SecretPackage<Toy251>, [i.0, 2, c0.0, c1.0, s.0, mn as u8, mx as u8]);
+}
+
+// Direct-form round trips (no wire-format function), full u16 thresholds: thorough tier only.
+// @harness name=codec_rt_secret_share props=C12 kind=bounded bound="commitment length in {0,1,2}" tier=thorough backs="SecretShare direct postcard round trip deserialize(serialize(x)) == Ok(x)" expect=pass
 #[kani::proof]
 #[kani::unwind(8)]
 #[kani::stub(zeroize::barrier::optimization_barrier, noop_barrier)]
@@ -188,155 +434,19 @@ fn codec_rt_secret_share() {
     }
 }
 
-fn pkp(entries: usize, min_signers: Option<u16>) -> PublicKeyPackage<Toy251> {
-    let mut m = BTreeMap::new();
-    if entries >= 1 {
-        m.insert(id(1), vshare(any_e_nz()));
-    }
-    if entries >= 2 {
-        m.insert(id(2), vshare(any_e_nz()));
-    }
-    PublicKeyPackage::<Toy251>::new(m, vkey(any_e_nz()), min_signers)
-}
-
-// @harness name=codec_rt_public_key_package_some props=C12,C13 kind=bounded bound="2 entries with the concrete keys 1, 2; min_signers = Some(any u16)" tier=quick backs="PublicKeyPackage postcard round trip (custom Deserialize impl, serialization.rs:259-490), symbolic verifying shares / key / threshold" expect=pass
-#[kani::proof]
-#[kani::unwind(8)]
-fn codec_rt_public_key_package_some() {
-    roundtrip!(pkp(2, Some(kani::any())), PublicKeyPackage<Toy251>);
-}
-
-// @harness name=codec_rt_public_key_package_none props=C12,C13 kind=bounded bound="2 entries with the concrete keys 1, 2; min_signers = None (pre-3.0 format: field absent on the wire)" tier=quick backs="PublicKeyPackage legacy format: encoding without threshold decodes with min_signers == None and equals the original" expect=pass
-#[kani::proof]
-#[kani::unwind(8)]
-fn codec_rt_public_key_package_none() {
-    let x = pkp(2, None);
-    // the legacy encoding really has no threshold bytes: header(5) + map(1 + 2*2) + key(1)
-    if let Ok(b) = x.serialize() {
-        assert!(b.len() == 11);
-    }
-    roundtrip!(x, PublicKeyPackage<Toy251>);
-}
-
-// @harness name=codec_rt_public_key_package_small props=C12,C13 kind=bounded bound="0 and 1 entries (key 1); min_signers = Some(any) and None" tier=quick backs="PublicKeyPackage postcard round trip, small maps" expect=pass
-#[kani::proof]
-#[kani::unwind(8)]
-fn codec_rt_public_key_package_small() {
-    roundtrip!(pkp(0, Some(kani::any())), PublicKeyPackage<Toy251>);
-    roundtrip!(pkp(1, Some(kani::any())), PublicKeyPackage<Toy251>);
-    roundtrip!(pkp(0, None), PublicKeyPackage<Toy251>);
-    roundtrip!(pkp(1, None), PublicKeyPackage<Toy251>);
-}
-
-fn signing_package(entries: usize, msg_len: usize) -> SigningPackage<Toy251> {
-    let mut m = BTreeMap::new();
-    if entries >= 1 {
-        m.insert(id(1), any_signing_commitments());
-    }
-    if entries >= 2 {
-        m.insert(id(2), any_signing_commitments());
-    }
-    let msg: [u8; 2] = kani::any();
-    SigningPackage::<Toy251>::new(m, &msg[..msg_len])
-}
-
-// @harness name=codec_rt_signing_package props=C12 kind=bounded bound="2 entries (concrete keys 1, 2), message length 2, all commitment values and message bytes" tier=quick backs="SigningPackage postcard round trip" expect=pass
-#[kani::proof]
-#[kani::unwind(8)]
-fn codec_rt_signing_package() {
-    roundtrip!(signing_package(2, 2), SigningPackage<Toy251>);
-}
-
-// @harness name=codec_rt_signing_package_small props=C12 kind=bounded bound="(entries, message length) in {(0,0), (1,1), (1,0)}" tier=quick backs="SigningPackage postcard round trip, small shapes" expect=pass
-#[kani::proof]
-#[kani::unwind(8)]
-fn codec_rt_signing_package_small() {
-    roundtrip!(signing_package(0, 0), SigningPackage<Toy251>);
-    roundtrip!(signing_package(1, 1), SigningPackage<Toy251>);
-    roundtrip!(signing_package(1, 0), SigningPackage<Toy251>);
-}
-
-// @harness name=codec_rt_dkg_round1_package props=C12 kind=bounded bound="commitment length in {1,2}" tier=quick backs="keys::dkg::round1::Package postcard round trip (commitment + proof of knowledge Signature), all non-identity commitments, R != identity, all z" expect=pass
-#[kani::proof]
-#[kani::unwind(8)]
-#[kani::stub(std::fmt::format, stub_format)]
-fn codec_rt_dkg_round1_package() {
-    let mut len = 1;
-    while len <= 2 {
-        let x = dkg::round1::Package::<Toy251>::new(
-            any_commitment_nz(len),
-            Signature::<Toy251>::new(any_e_nz(), any_s()),
-        );
-        roundtrip!(x, dkg::round1::Package<Toy251>);
-        len += 1;
-    }
-}
-
-// @harness name=codec_rt_dkg_round1_secret_package props=C12,C13 kind=bounded bound="coefficients length 2 and commitment length 2; and (1,1); all scalar/element values, min/max: u16" tier=quick backs="keys::dkg::round1::SecretPackage postcard round trip (state stored between DKG rounds)" expect=pass
-#[kani::proof]
-#[kani::unwind(8)]
-#[kani::stub(zeroize::barrier::optimization_barrier, noop_barrier)]
-fn codec_rt_dkg_round1_secret_package() {
-    let x = dkg::round1::SecretPackage::<Toy251>::new(
-        any_id(),
-        vec![any_s(), any_s()],
-        any_commitment_nz(2),
-        kani::any(),
-        kani::any(),
-    );
-    roundtrip!(x, dkg::round1::SecretPackage<Toy251>);
-    let x = dkg::round1::SecretPackage::<Toy251>::new(
-        any_id(),
-        vec![any_s()],
-        any_commitment_nz(1),
-        kani::any(),
-        kani::any(),
-    );
-    roundtrip!(x, dkg::round1::SecretPackage<Toy251>);
-}
-
-// The refresh variant stores a commitment WITHOUT the constant-term entry (identity stripped): shapes with
-// |commitment| == |coefficients| - 1.
-// @harness name=codec_rt_dkg_round1_secret_package_refresh props=C13 kind=bounded bound="(coefficients, commitment) lengths (2,1) and (3,2)" tier=quick backs="refresh_dkg_part1 state: dkg::round1::SecretPackage whose commitment lacks the identity entry round-trips" expect=pass
-#[kani::proof]
-#[kani::unwind(8)]
-#[kani::stub(zeroize::barrier::optimization_barrier, noop_barrier)]
-fn codec_rt_dkg_round1_secret_package_refresh() {
-    let x = dkg::round1::SecretPackage::<Toy251>::new(
-        any_id(),
-        vec![S(0), any_s()],
-        any_commitment_nz(1),
-        kani::any(),
-        kani::any(),
-    );
-    roundtrip!(x, dkg::round1::SecretPackage<Toy251>);
-    let x = dkg::round1::SecretPackage::<Toy251>::new(
-        any_id(),
-        vec![S(0), any_s(), any_s()],
-        any_commitment_nz(2),
-        kani::any(),
-        kani::any(),
-    );
-    roundtrip!(x, dkg::round1::SecretPackage<Toy251>);
-}
-
-// @harness name=codec_rt_dkg_round2_secret_package props=C12,C13 kind=bounded bound="commitment length in {1,2}" tier=quick backs="keys::dkg::round2::SecretPackage postcard round trip (state stored between DKG rounds)" expect=pass
+// @harness name=codec_rt_dkg_round2_secret_package props=C12,C13 kind=bounded bound="commitment length 1; min_signers, max_signers: all u16" tier=thorough backs="keys::dkg::round2::SecretPackage direct postcard round trip incl. multi-byte varints for both thresholds" expect=pass
 #[kani::proof]
 #[kani::unwind(8)]
 #[kani::stub(zeroize::barrier::optimization_barrier, noop_barrier)]
 fn codec_rt_dkg_round2_secret_package() {
-    let mut len = 1;
-    while len <= 2 {
-        let x = dkg::round2::SecretPackage::<Toy251>::new(
-            any_id(),
-            any_commitment_nz(len),
-            any_s(),
-            kani::any(),
-            kani::any(),
-        );
-        roundtrip!(x, dkg::round2::SecretPackage<Toy251>);
-        len += 1;
-    }
+    let x = dkg::round2::SecretPackage::<Toy251>::new(
+        any_id(),
+        any_commitment_nz(1),
+        any_s(),
+        kani::any(),
+        kani::any(),
+    );
+    roundtrip!(x, dkg::round2::SecretPackage<Toy251>);
 }
 
 // ---------------------------------------------------------------------------------------------
@@ -404,44 +514,29 @@ fn codec_header_negctl() {
 // an invalid option tag (>= 2) or a truncated varint is swallowed into None (serialization.rs:390-393),
 // and postcard ignores trailing bytes.  So the variable-size encoding is not canonical (C12 restricts
 // canonicity to fixed-size encodings; stated here so that it is not mistaken for a gap).
-// @harness name=codec_pkp_threshold_tail_lenient props=C12 kind=bounded bound="1 map entry; tail of 0..=2 arbitrary bytes after the verifying key" tier=quick backs="PublicKeyPackage::deserialize: decode error of the optional threshold is swallowed into min_signers == None; never Err" expect=pass
+// @harness name=codec_pkp_threshold_tail_lenient props=C12 kind=bounded bound="1 map entry (key 1); tail of 0..=2 arbitrary bytes after the verifying key" tier=quick backs="PublicKeyPackage::deserialize: a decode error of the optional threshold is swallowed into min_signers == None; never Err" expect=pass
 #[kani::proof]
-#[kani::unwind(8)]
+#[kani::unwind(16)]
 fn codec_pkp_threshold_tail_lenient() {
-    let x = pkp(1, None);
-    let base = match x.serialize() {
-        Ok(b) => b,
-        Err(_) => {
-            assert!(false, "serialize failed");
-            return;
-        }
-    };
-    assert!(base.len() == 9);
+    let (a, k) = (any_e_nz(), any_e_nz());
     let t: [u8; 2] = kani::any();
+    let buf = [H[0], H[1], H[2], H[3], H[4], 1, 1, a.0, k.0, t[0], t[1]];
     let mut tl = 0;
     while tl <= 2 {
-        let mut bytes = base.clone();
-        let mut i = 0;
-        while i < tl {
-            bytes.push(t[i]);
-            i += 1;
-        }
-        match PublicKeyPackage::<Toy251>::deserialize(&bytes) {
+        match PublicKeyPackage::<Toy251>::deserialize(&buf[..9 + tl]) {
             Err(_) => {
                 assert!(false, "tail made the decoder fail");
             }
             Ok(y) => {
-                assert!(y.verifying_key() == x.verifying_key());
-                assert!(y.verifying_shares() == x.verifying_shares());
+                assert!(y.verifying_key().to_element() == k);
+                assert!(y.verifying_shares().len() == 1);
                 if tl == 0 || t[0] != 1 {
+                    // no tail, tag None (0), or INVALID option tag (>= 2): None
                     assert!(y.min_signers().is_none());
                 } else if tl == 2 && t[1] < 128 {
                     assert!(y.min_signers() == Some(t[1] as u16));
-                } else if tl == 1 {
-                    // tag Some, varint missing -> swallowed
-                    assert!(y.min_signers().is_none());
                 } else {
-                    // tl == 2, t[1] >= 128: varint continues past the end -> swallowed
+                    // tag Some but the varint is missing (tl == 1) or runs past the end (t[1] >= 128): swallowed
                     assert!(y.min_signers().is_none());
                 }
             }
